@@ -12,8 +12,8 @@ import sys
 
 TOK = re.compile(
     r"""\s*(?:
-      (?P<str>b?"(?:[^"\\]|\\.)*")
-    | (?P<rawstr>b?r\#*"(?s:.*?)"\#*)
+      (?P<rawstr>b?r(\#*)"(?s:.*?)"\2)
+    | (?P<str>b?"(?:[^"\\]|\\.)*")
     | (?P<chr>b?'(?:[^'\\]|\\.[^']*)')
     | (?P<punct>[(){}\[\],])
     | (?P<colon>:(?!:))
